@@ -891,6 +891,10 @@ impl<'a> PublicRangeFinder<'a> {
 
               for i in (0..named_exports.len()).rev() {
                 let (export_name, _) = named_exports.get_index(i).unwrap();
+                if export_name == "default" {
+                  // `export *` never re-exports the default export
+                  continue;
+                }
                 if let Some(export_path) =
                   module_exports.resolved.get(export_name)
                 {
